@@ -8,7 +8,7 @@ from .common import TOL
 
 PROPERTY = "C02"
 LEVEL = "exploration"
-RUNS = {"quick": 1000, "thorough": 40000}
+RUNS = {"quick": 3000, "thorough": 40000}
 RULE = ("seeded scenarios: one real client context issues 2-12 concurrent tagged requests (CON/NON) to a real aiocoap "
         "server (echo resource with random latency around EMPTY_ACK_DELAY) and 1-2 scripted servers (piggyback / "
         "separate CON / separate NON / RST / silence) under per-datagram drop / duplicate / delay / reorder, ICMP errors "
